@@ -1,5 +1,6 @@
 import Qats.Lemmas.GuiMain
 import Qats.Lemmas.GuiQuiet
+import Qats.Lemmas.GuiSettingsMain
 /-!
 # C19 — the GUI shows the database and the latest request, whatever the worker order
 
@@ -99,6 +100,32 @@ theorem late_draw_settings_counterexample :
     s.pending = [] ∧ s.reqPlots = some ([⟨1, 1⟩], ui0) ∧ s.trace = some ⟨[⟨1, 1⟩], 0, 0, 1⟩ ∧ s.spectrum = specPlain s.reqPlots ∧
       ¬ Consistent s := by
   decide
+
+/-! ## application settings (File > Settings) -/
+
+/-- The settings dialog changes what the user changed and nothing else: Cancel leaves the application settings as they
+were; OK with no widget touched leaves them as they were (for settings inside the widgets' ranges — which the defaults are
+and which every session keeps, `settings_stay_in_range`); OK sets exactly the edited widgets, to the value typed clamped to
+the widget's range. (The views then show "the settings of the latest request": the harness decodes spectrum and cycle
+histogram against these values.) -/
+theorem settings_dialog_spec (e : Qats.GuiSettings.Edit) (a : Qats.GuiSettings.App) (h : Qats.GuiSettings.InRange a) :
+    Qats.GuiSettings.dialog false e a = a ∧ Qats.GuiSettings.dialog true {} a = a ∧
+    (Qats.GuiSettings.dialog true e a).norm = e.norm.getD a.norm ∧
+    (Qats.GuiSettings.dialog true e a).nperseg = (e.nperseg.map (Qats.GuiSettings.clamp 100 100000)).getD a.nperseg ∧
+    (Qats.GuiSettings.dialog true e a).nbins = (e.nbins.map (Qats.GuiSettings.clamp 10 1000)).getD a.nbins ∧
+    (Qats.GuiSettings.dialog true e a).ndec = (e.ndec.map (Qats.GuiSettings.clamp 1 10)).getD a.ndec :=
+  ⟨Qats.GuiSettings.cancel_unchanged' e a, Qats.GuiSettings.accept_untouched' a h, Qats.GuiSettings.accept_sets_edited' e a h⟩
+
+/-- Whatever sequence of dialogs a session contains, the settings stay inside the widgets' ranges (so the premise above
+always holds, starting from the defaults 20000 / 256 / 2 / not normalised). -/
+theorem settings_stay_in_range (l : List (Bool × Qats.GuiSettings.Edit)) :
+    Qats.GuiSettings.InRange (Qats.GuiSettings.session l) :=
+  Qats.GuiSettings.inRange_session l
+
+/-- Regression for the seeded change C19-round5-m1 (value set before the range): accepting the untouched dialog keeps the
+segment length 20000. -/
+example : (Qats.GuiSettings.session [(true, {}), (false, { nperseg := some 256 }), (true, { nbins := some 5 })]) =
+    ⟨false, 20000, 10, 2⟩ := by decide
 
 /-- K4: the database is cleared while the four calculations are pending: idle, database and list empty, no request since
 the clear, yet all views show series 1. -/
